@@ -48,6 +48,8 @@ DIR = "acmed::acme_proto::structs::directory::Directory"
 ENC_JWK = "acmed::jws::encode_jwk"
 ENC_KID = "acmed::jws::encode_kid"
 ENC_MAC = "acmed::jws::encode_kid_mac"
+PH = "acmed::jws::JwsProtectedHeader"
+JD = "acmed::jws::JwsData"
 
 
 def builder_closures(prog):
@@ -62,6 +64,70 @@ def builder_closures(prog):
                     if gb and gb.kind == "Closure" and not gb.is_coroutine and [x for x in gb.calls if (x.name or "").startswith("acmed::jws::encode")]:
                         out[g] = gb
     return out
+
+
+def jws_table(prog):
+    """The three JWS builders (encode_jwk, encode_kid, encode_kid_mac) EVALUATED on symbolic inputs: serde_json::to_string, b64_encode,
+    KeyPair::sign, HashFunction::hmac and jwk_public_key are answered with readable terms, every jws:: helper is followed, and the
+    resulting flattened JWS is compared with RFC 7515/8555: protected = b64(header{alg, exactly one of jwk/kid, nonce, url}),
+    payload = b64(payload), signature = b64(sign_or_mac(key, alg, protected '.' payload)). Returns [(what, got, want)] or None."""
+    from ..absint import Val, ok, run, some, variant, vstr
+    JSA = "acme_common::crypto::jws_signature_algorithm::JwsSignatureAlgorithm"
+
+    def show(v):
+        v = v.deref()
+        if v.k == "str":
+            return v.v
+        if v.k == "adt" and v.extra and v.extra[1] == "Some":
+            return "Some(%s)" % show(v.v[0])
+        if v.k == "variant":
+            return v.v
+        return repr(v)
+
+    def model(cs, args):
+        n = cs.name or ""
+        d = [a.deref() for a in args]
+        if n.startswith("serde_json::ser::to_string") and d:
+            x = d[0]
+            if x.k == "adt" and x.extra and x.extra[0] in (PH, JD):
+                fs = prog.adt_fields(x.extra[0])
+                return ok(vstr("%s{%s}" % (x.extra[0].rsplit("::", 1)[1], ",".join("%s=%s" % (f, show(x.v[i])) for i, f in enumerate(fs)))))
+            return ok(vstr("JSON(%r)" % x))
+        if n.endswith("b64_encode") and d:
+            return vstr("B64(%s)" % show(d[0]))
+        if n.endswith("KeyPair::sign") and len(d) > 2:
+            return ok(vstr("SIG[%s|%s](%s)" % (show(d[0]), show(d[1]), show(d[2]))))
+        if n.endswith("::hmac") and len(d) > 2:
+            return ok(vstr("HMAC[%s|%s](%s)" % (show(d[0]), show(d[1]), show(d[2]))))
+        if n.endswith("jwk_public_key") and d:
+            return ok(vstr("JWK[%s]" % show(d[0])))
+        return None
+    fol = lambda cs: (cs.name or "").startswith("acmed::jws::")
+    rows = []
+    cases = [(ENC_JWK, "Es256", {1: "KP", 3: "PAYLOAD", 4: "URL"}, {5: some(vstr("NONCE"))}, "alg=Es256,jwk=Some(JWK[KP]),kid=None,nonce=Some(NONCE),url=URL", "SIG[KP|Es256]"),
+             (ENC_JWK, "Rs256", {1: "KP", 3: "PAYLOAD", 4: "URL"}, {5: some(vstr("NONCE"))}, "alg=Rs256,jwk=Some(JWK[KP]),kid=None,nonce=Some(NONCE),url=URL", "SIG[KP|Rs256]"),
+             (ENC_KID, "Es384", {1: "KP", 3: "KID", 4: "PAYLOAD", 5: "URL", 6: "NONCE"}, {}, "alg=Es384,jwk=None,kid=Some(KID),nonce=Some(NONCE),url=URL", "SIG[KP|Es384]"),
+             (ENC_MAC, "Hs256", {1: "KEY", 3: "KID", 4: "PAYLOAD", 5: "URL"}, {}, "alg=Hs256,jwk=None,kid=Some(KID),nonce=None,url=URL", "HMAC[Sha256|KEY]"),
+             (ENC_MAC, "Hs384", {1: "KEY", 3: "KID", 4: "PAYLOAD", 5: "URL"}, {}, "alg=Hs384,jwk=None,kid=Some(KID),nonce=None,url=URL", "HMAC[Sha384|KEY]"),
+             (ENC_MAC, "Hs512", {1: "KEY", 3: "KID", 4: "PAYLOAD", 5: "URL"}, {}, "alg=Hs512,jwk=None,kid=Some(KID),nonce=None,url=URL", "HMAC[Sha512|KEY]")]
+    for fn, alg, strs, extra, hdr, signer in cases:
+        b = prog.body(fn)
+        if b is None:
+            return None
+        env = {i: Val("ref", vstr(v)) for i, v in strs.items()}
+        env[2] = Val("ref", variant(JSA, alg))
+        env.update(extra)
+        try:
+            r = run(b, env, model, max_steps=60000, follow=fol)
+        except Exception:
+            return None
+        rv = r.ret.deref() if r.kind == "return" and r.ret is not None else None
+        if rv is None or rv.k != "adt" or not rv.extra or rv.extra[1] != "Ok" or not rv.v or rv.v[0].deref().k != "str":
+            return None
+        prot = "B64(JwsProtectedHeader{%s})" % hdr
+        want = "JwsData{protected=%s,payload=B64(PAYLOAD),signature=B64(%s(%s.B64(PAYLOAD)))}" % (prot, signer, prot)
+        rows.append(("%s(%s)" % (fn.rsplit("::", 1)[1], alg), rv.v[0].deref().v, want))
+    return rows
 
 
 def check(ctx):
@@ -330,12 +396,16 @@ def check_shape(ctx):
                 j = origins(b, st["rv"]["ops"][fs.index("jwk")], through=True)
                 ctx.require(R7, any("jwk_public_key" in x.name for x in j.calls) and j.has_leaf("param:1"), where(b, i), "encode_jwk: header.jwk = public JWK of the signing key", [fn, "header-jwk-key"])
         if fn != ENC_MAC:
-            for c in b.calls_to("acmed::jws::get_jws_data"):
+            for c in (b.calls_to("acmed::jws::get_jws_data") if prog.body("acmed::jws::get_jws_data") is not None else []):
                 ctx.require(R7, arg_origins(c, 0).has_leaf("param:1") and arg_origins(c, 1).has_leaf("param:2"), c.where(), "%s signs with its key_pair / sign_alg arguments" % fn.rsplit("::", 1)[1], [fn, "sign-args"])
                 pay_param = {ENC_JWK: "param:3", ENC_KID: "param:4"}[fn]
                 ctx.require(R7, arg_origins(c, 3).has_leaf(pay_param), c.where(), "%s: payload argument forwarded" % fn.rsplit("::", 1)[1], [fn, "payload"])
-    g = prog.must_body("acmed::jws::get_jws_data")
-    for i, st in agg_assigns(g, JD):
+    jt = jws_table(prog)
+    if jt is not None:
+        for what, got, want in jt:
+            ctx.require(R7, got == want, "acmed/src/jws.rs", "%s evaluates to the flattened JWS %s (expected %s)" % (what, got if got != want else "of RFC 7515 section 7.2.2", want), ["acmed::jws", "evaluated", what])
+    g = prog.must_body("acmed::jws::get_jws_data") if jt is None else None
+    for i, st in (agg_assigns(g, JD) if g is not None else []):
         fs = st["rv"]["fields"]
         p_l = op_local(st["rv"]["ops"][fs.index("protected")])
         y_l = op_local(st["rv"]["ops"][fs.index("payload")])
